@@ -502,7 +502,9 @@ def palette_param(palette, rgba):
 
 
 def hue_color_param(rgba):
-    """Invert cimple-colormap(h)(t): h = k/N (N <= 9) of the default hue sweep, t = k/(N-1)."""
+    """Invert cimple-colormap(h)(t): h = k/N (N <= 9) of the default hue sweep, t = k/(M-1) for up to M = 49
+    colour levels (a colour mapped to several dimensions easily has more than ten combinations; the first
+    version of this table stopped at ten and raised a false alarm in a thorough run)."""
     import xyzpy.plot.infiniplot as ip
     key = "huecol"
     if key not in _CMAP_CACHE:
@@ -513,7 +515,7 @@ def hue_color_param(rgba):
             for hnum in range(hden):
                 cm = ip.to_colormap(float(hs[hnum]), **opts)
                 hf = Fraction(hnum, hden)
-                for den in range(1, 10):
+                for den in range(1, 49):
                     ts = np.linspace(0.0, 1.0, den + 1) if den >= 1 else [0.0]
                     for num in range(den + 1):
                         tf = Fraction(num, den)
@@ -1140,6 +1142,14 @@ def canon_style(cfg, E, ln, tabs):
     rgba = tuple(round(c, 9) for c in ln["color"])
     if "hue" in pa and "color" in pa:
         c = hue_color_param(rgba)
+        if len(c) > 1:
+            # a colormap is a 256-entry table: two parameters can give one colour.  Keep the readings that are
+            # possible for the NUMBER of hue / colour levels of this plot (k/H and j/(M-1)); which level a given
+            # line should have is not used
+            H = len(E.axes[pa["hue"]]["labels"])
+            M = len(E.axes[pa["color"]]["labels"])
+            ok = [h for h in c if H % h[1] == 0 and (M == 1 or (M - 1) % h[3] == 0)]
+            c = ok or c
         out.append(["ht", [c[0][0], c[0][1]], [c[0][2], c[0][3]]] if len(c) == 1 else ["?", len(c)])
     elif "color" in pa:
         if cfg.get("palette") is not None:
